@@ -268,8 +268,13 @@ def searched_position_minus_one(fn):
       lower = [t for t, _p in gs if (any(isinstance(x, ast.Name) and x.id == k for x in ast.walk(t)) and any(U.const_value(c) in (0, -1) for c in ast.walk(t) if isinstance(c, (ast.Constant, ast.UnaryOp)))) or
                (_mentions(t, v) and ('%s[0]' % xs) in norm_text(t))]
       what = '%s with %s == -1 (when %s lies before %s[0]) is the last element of %s' % (norm_text(n), k, v, xs, norm_text(n.value))
+      vx = U.expand_locals(fn, st.value.left.args[1], at=st)
+      related = any(norm_text(x) == xs for x in ast.walk(vx))
       if lower:
         out.append(Site('previous-wraps', n, OK, 'guarded by %s' % norm_text(lower[0])))
+      elif related:
+        # the searched value is computed from the searched list itself (an element of it plus an offset): it may never precede xs[0]
+        out.append(Site('previous-wraps', n, UNKNOWN, 'cannot classify: %s; the searched value %s is derived from %s itself' % (what, norm_text(vx)[:50], xs)))
       else:
         out.append(Site('previous-wraps', n, BAD, '%s; %s = %s, and no condition on the way excludes a value before the first element' % (what, k, norm_text(st.value))))
   return out
